@@ -30,7 +30,8 @@ CLAIMS = {
     "C05": ("other", "Path-exhaustive obligations on the reclamation code of the RCU flavours: one push attempt per retired pointer, free exactly "
             "when it did not fit (after synchronize), free-or-keep exactly once per popped element under the epoch guard (clear_buffer, "
             "disposer thread), Destruct()/destructors drain with the maximal epoch before delete, general_instant frees once after synchronize, "
-            "retire_ptr/batch_retire hand over each element once with the current epoch tag. Buffer delivery itself is C07.", PATHS,
+            "retire_ptr/batch_retire hand over each element once with the current epoch tag and batch_retire leaves its element loop only through "
+            "the loop's own range / chain test. Buffer delivery itself is C07.", PATHS,
             "DESIGN.md §4 C05"),
     "C06": ("other", "Structural clauses only: MSQueue/MoirQueue/BasketQueue/OptimisticQueue (HP, DHP) never dereference a node pointer read from "
             "a shared atomic before hazard-pointer protection (path typestate); the old head is disposed only after this thread's unlinking CAS "
